@@ -128,10 +128,62 @@ static void history_cases() {
     sample("history/TGswKey,LweParams,/FILE: two exports back-to-back in one FILE, imported in order, each compared, stream position == end of each object");
 }
 
+// real-valued parameters: a large deterministic alphabet of doubles through the text encoding (LweParams / TLweParams carry two reals each).
+// value i of chunk c = sign-free double with seeded 52-bit mantissa and an exponent sweeping [2^-40, 2^-1]; plus decimal-short values m*10^-e.
+static void reals_alphabet() {
+    int per = (int)opti("reals_per_chunk", quick() ? 16384 : 262144);
+    for (int chunk = 0; chunk < 64; chunk++) {
+        std::string key = fmt("reals/chunk=%d", chunk);
+        if (!take(key)) continue; if (deadline()) return; current(key);
+        Fate f = forked([&] {
+            uint64_t x = 0xC05 + 7919ull * chunk + S().seed; uint64_t bad = 0;
+            for (int i = 0; i < per && bad < 3; i++) {
+                double v[2];
+                for (int q = 0; q < 2; q++) { uint64_t r = splitmix(x); if (i % 8 == 7) { int e = 1 + (int)(r % 12); uint64_t m = 1 + (r >> 8) % 99999; v[q] = (double)m; for (int z = 0; z < e + 4; z++) v[q] /= 10.; if (v[q] > 0.5) v[q] = 0.5; }
+                    else { uint64_t bits = ((uint64_t)(1023 - 1 - (r % 40)) << 52) | (r >> 12); memcpy(&v[q], &bits, 8); } }
+                std::ostringstream os; std::string bytes; double g0, g1; bool tl = i & 1, reexp_differs = false;
+                if (tl) { TLweParams *p = new_TLweParams(8, 1, v[0], v[1]); export_tLweParams_toStream(os, p); bytes = os.str(); std::istringstream is(bytes); TLweParams *q = new_tLweParams_fromStream(is); g0 = q->alpha_min; g1 = q->alpha_max; std::ostringstream o2; export_tLweParams_toStream(o2, q); if (o2.str() != bytes) reexp_differs = true; delete_TLweParams(p); }
+                else { LweParams *p = new_LweParams(5, v[0], v[1]); export_lweParams_toStream(os, p); bytes = os.str(); std::istringstream is(bytes); LweParams *q = new_lweParams_fromStream(is); g0 = q->alpha_min; g1 = q->alpha_max; std::ostringstream o2; export_lweParams_toStream(o2, q); if (o2.str() != bytes) reexp_differs = true; delete_LweParams(p); }
+                if (memcmp(&g0, &v[0], 8) || memcmp(&g1, &v[1], 8) || reexp_differs) { bad++; violation(key, fmt("%s with alpha_min=%.17g (%a) alpha_max=%.17g (%a) comes back as %.17g (%a), %.17g (%a)%s", tl ? "TLweParams" : "LweParams", v[0], v[0], v[1], v[1], g0, g0, g1, g1, reexp_differs ? "; the imported object re-exports to different bytes" : "")); }
+            }
+            eval(per); nontrivial(per); outcome(mix(chunk, per));
+        }, 600);
+        if (f.died()) violation(key, "process died during export/import of parameter objects: " + fate_str(f) + " " + f.text.substr(0, 300));
+    }
+    sample("reals/chunk=17: 16384 (quick) pairs of doubles (seeded mantissa, exponents 2^-40..2^-1, every 8th a short decimal m*10^-e) as alpha_min/alpha_max of LweParams/TLweParams: bit-identical after export+import, re-export identical");
+}
+
+// histories over near-identical objects: A, then B which differs from A in exactly ONE parameter field, then A again, imported in one process:
+// each must come back field-for-field equal to its own original (an importer must not hand out an earlier, "equal enough" object)
+static void variation_histories() {
+    auto &T = types();
+    static const char *FN[] = {"la_min", "la_max", "ta_min", "ta_max", "n", "k", "l", "Bgbit", "t", "basebit"};
+    for (size_t ti = 0; ti < T.size(); ti++) for (int field = 0; field < 10; field++) for (int file = 0; file < 2; file++) {
+        if (T[ti].needs_keysets && field >= 4) continue;
+        std::string key = fmt("variation/%s/%s/%s", T[ti].name, FN[field], file ? "FILE" : "stream");
+        if (!take(key)) continue; if (deadline()) return; current(key);
+        Fate f = forked([&] {
+            Cfg a; if (T[ti].needs_keysets) { a.n = 2; a.N = 1024; a.k = 1; a.l = 1; a.Bgbit = 8; a.t = 2; a.basebit = 1; a.keysets = true; } else { a.n = 3; a.N = 8; a.k = 1; a.l = 2; a.Bgbit = 4; a.t = 2; a.basebit = 1; }
+            a.content = 5; a.seed = 11; a.la_min = 7.18e-9; a.la_max = 0.012467; a.ta_min = 2.44e-5; a.ta_max = 0.3;
+            Cfg b = a; switch (field) { case 0: b.la_min = 1e-3; break; case 1: b.la_max = 0.1; break; case 2: b.ta_min = 1e-12; break; case 3: b.ta_max = 0.5; break; case 4: b.n++; break; case 5: b.k++; break; case 6: b.l++; break; case 7: b.Bgbit++; break; case 8: b.t++; break; default: b.basebit++; }
+            World wa(a), wb(b); World *ws[3] = {&wa, &wb, &wa};
+            Out o(file); for (int q = 0; q < 3; q++) T[ti].exp(*ws[q], o);
+            std::string bytes = o.bytes(); In in(file, bytes);
+            void *h[3]; for (int q = 0; q < 3; q++) { h[q] = T[ti].imp(*ws[q], in); if (!h[q]) { violation(key, fmt("import %d of 3 returned NULL", q + 1)); return; } }
+            for (int q = 0; q < 3; q++) { std::string e = T[ti].cmp(*ws[q], h[q]); if (!e.empty()) { violation(key, fmt("%s: object %d of the sequence A, B (= A with another %s), A differs from its original after import: ", T[ti].name, q + 1, FN[field]) + e); return; }
+                Out o2(file); T[ti].reexp(h[q], *ws[q], o2); Out o3(file); T[ti].exp(*ws[q], o3); if (o2.bytes() != o3.bytes()) { violation(key, fmt("%s: object %d of the sequence A, B (= A with another %s), A re-exports to different bytes", T[ti].name, q + 1, FN[field])); return; } }
+            eval(3); nontrivial(1); outcome(mix(ti * 16 + field, file));
+        }, 300);
+        if (f.died()) violation(key, "process died while importing a sequence of valid exports: " + fate_str(f) + " " + f.text.substr(0, 300));
+    }
+    sample("variation/TGswKey/ta_max/stream: TGswKey under parameters A, under B = A with alpha_max of the ring parameters changed from 0.3 to 0.5, and under A again, imported from one stream: each equals its own original and re-exports identically");
+}
+
 int main(int argc, char **argv) {
     init(argc, argv);
     std::string part = opt("part", "all");
     if (part == "all" || part == "single") { default_cases(); single_cases(); keyset_cases(); }
-    if (part == "all" || part == "history") history_cases();
+    if (part == "all" || part == "history") { history_cases(); variation_histories(); }
+    if (part == "all" || part == "reals") reals_alphabet();
     return finish();
 }
